@@ -13,7 +13,56 @@ def main(p):
     rng = np.random.default_rng(3)
     bad = []
     print("params:", json.dumps(p))
-    if p["kind"] == "normalize":
+    if p["kind"] == "compute":
+        from unittest import mock
+        from sigpyproc.core import filters
+        convs = np.array(p["convs"], dtype=np.float32)
+        T_, N_ = convs.shape
+        mf = object.__new__(filters.MatchedFilter)
+        mf._temp_bank = [filters.Template.gen_boxcar(k + 1) for k in range(T_)]
+
+        class ZS:
+            data = np.zeros(N_, dtype=np.float32)
+        mf._zscores = ZS()
+        seen = []
+        with mock.patch.object(filters.kernels, "convolve_templates", lambda z, t, r: (seen.append((z, [np.asarray(x).tolist() for x in t], list(r))), convs)[1]):
+            mf._compute()
+        it, pk = np.unravel_index(np.argmax(convs), convs.shape)
+        if not (mf.snr == convs.max() and convs[mf._itemp, mf.peak_bin] == convs.max()):
+            bad.append(f"snr {mf.snr} at ({mf._itemp},{mf.peak_bin}) is not the maximum {convs.max()} of {convs.tolist()}")
+        if mf.best_temp is not mf._temp_bank[int(mf._itemp)]:
+            bad.append("best template is not the bank entry of the peak row")
+        if not seen or seen[0][0] is not ZS.data or seen[0][1] != [[1.0] * (k + 1) for k in range(T_)] or seen[0][2] != [0] * T_:
+            bad.append("convolve_templates did not receive the z-scores and the bank in order")
+    elif p["kind"] == "init":
+        from unittest import mock
+        from sigpyproc.core import filters
+        seen = []
+        real = filters.estimate_zscore
+        with mock.patch.object(filters, "estimate_zscore", lambda d, **k: (seen.append((np.asarray(d).tolist(), k)), real(d, **k))[1]):
+            x = rng.normal(size=64).astype(np.float32)
+            filters.MatchedFilter(x, loc_method="mean", scale_method="mad", nbins_max=4)
+        if not seen or seen[0][0] != x.tolist() or seen[0][1] != dict(loc_method="mean", scale_method="mad"):
+            bad.append(f"estimate_zscore received {seen[0][1] if seen else None}")
+        try:
+            filters.MatchedFilter(np.zeros((4, 4), dtype=np.float32))
+            bad.append("2-D data accepted")
+        except ValueError:
+            pass
+    elif p["kind"] == "widths":
+        from sigpyproc.core import filters
+        for f in (p["factor"], 1.5, 2.0, 1.0, 0.7, 3.3):
+            got = [float(v) for v in filters.MatchedFilter.get_box_width_spacing(p["size_max"], f)]
+            want = [1.0]
+            while True:
+                nxt = float(int(max(want[-1] + 1, f * want[-1])))
+                if nxt > p["size_max"]:
+                    break
+                want.append(nxt)
+            if got != want:
+                bad.append(f"get_box_width_spacing({p['size_max']}, {f}) = {got}, expected {want}")
+                break
+    elif p["kind"] == "normalize":
         for trial in range(5):
             x = rng.integers(0, 9, p["n"]).astype(np.float32)
             out = K.normalize_template(x.copy())
